@@ -13,6 +13,11 @@ for dp, dn, fn in os.walk(root):
         if f.endswith(".py"):
             p = os.path.join(dp, f)
             rel = os.path.relpath(p, "/repo")
-            out[rel] = alpha.reference_for(ast.parse(open(p).read()))
+            tree = ast.parse(open(p).read())
+            out[rel] = alpha.reference_for(tree)
+            from vk import canon
+            canon.normalise_idioms(tree)
+            for q, fn in alpha.functions_of(tree):
+                out[rel][q]["skeleton"] = alpha.skeleton(fn)
 json.dump(out, open(os.path.join(HERE, "vk", "refnames.json"), "w"), indent=0, sort_keys=True)
 print("functions", sum(len(v) for v in out.values()), "locals", sum(len(f["locals"]) for v in out.values() for f in v.values()))
